@@ -99,7 +99,13 @@ RULE = ("correspondence: seeded dyadic databases of 1-4 series in the families i
         "array of one of them (whole, cut to the common window), arange(start, end+dt, dt) as the refusal message recommends, "
         "arange(start, end+dt/2, dt), linspace over the common window, the first / last instant one bit (or 4 ulp, or 1e-10 relative) "
         "outside / inside the common window; array or list; the same array object again in a later export; "
-        "non-trivial = more than one series or any option; distinct by full case")
+        "non-trivial = more than one series or any option; distinct by full case; "
+        "eighth round (stream `long`, c07_long.py, oracles only): 16 (quick) / 64 (thorough) exports of 2-3 series with 999 / 1000 / 1001 / "
+        "1023 / 1024 / 1025 / 4095 / 4096 / 4097 / 9999 / 10000 / 10001 / 65535 / 65536 / 65537 / 70001 samples (quick: per format one size around "
+        "1000 / 1024 and one of each of the bands around 4096, 10000 and 65536) from an in-memory or .pkl-backed database, no options / "
+        "a window whose limits are samples at multiples of 512 ... 65536 or the last three samples / resampling, a pre-existing target with "
+        "exist_ok=False, and series that differ ONLY in the last sample (moved by a quarter step / missing): round trip over the whole "
+        "length against per-series in-memory retrieval, refusal without touching the target")
 
 EXTS = [".ts", ".dat", ".h5", ".pkl"]
 
@@ -2420,11 +2426,17 @@ def run(chk):
     # `resample` given as a time array related to the series' own time arrays (ends on / beyond a series' end by round-off)
     for _ in range(260 if chk.quick else 3000):
         run_e2e(chk, gen_e2e(rng, corner="resarr"))
+    # long series (999 ... 70001 samples) to every format: round trip over the whole length, refusals, windows at block boundaries
+    from .c07_long import run_long
+    run_long(chk)
 
 
 def replay(rp):
     inp = rp.get("input")
     kind = inp.get("kind") if isinstance(inp, dict) else None
+    if kind == "long":
+        from .c07_long import replay_long
+        return replay_long(inp)
     root = tempfile.mkdtemp(prefix="qv07r_")
     try:
         if kind == "e2e":
